@@ -61,7 +61,8 @@ def num_matches(ref, act, rtol=1e-12, strict_int=True):
     if ref.kind == "real" and isinstance(act, numbers.Complex) and not isinstance(act, numbers.Real):
         if complex(act).imag != 0:
             return Mismatch("kind:complex-for-real", "expected real %s, got %r" % (N.mp.nstr(ref.v, 17), act))
-    if not ref.well_conditioned():
+    if ref.v != 0 and ref.err > N.mpf("1e-6") * ref.mag:
+        # the reference says (almost) nothing about this value: leave it unchecked
         raise IllConditioned()
     if ref.err == 0:
         # literal: exact
